@@ -9,6 +9,8 @@ representative token per class induced by the predicates of that expression.
 """
 from __future__ import annotations
 
+import sys
+
 from mc import core
 from mc.checks.c14 import mk_token, predicate_values
 
@@ -40,6 +42,8 @@ def probe_tokens():
 
 def capture():
     """{language: [("header"|"follow-up", expression), ...]} from the working tree"""
+    if "v" in _CAPTURE:
+        return _CAPTURE["v"]
     from codelimit.common.scope import scope_utils
     from codelimit.languages import Languages
 
@@ -75,7 +79,75 @@ def capture():
                 continue  # a language registered beyond the property's seven that has no header pattern (yet): nothing to explore
             raise core.HarnessError(f"seam scope_utils.find_all never hit for {name}")
         out[name] = got
+    _capture_from_real_texts(out)
+    _CAPTURE["v"] = out
     return out
+
+
+def expr_key(e, depth=0):
+    """address-free structural description of an expression / automaton-free pattern object"""
+    if isinstance(e, (list, tuple)):
+        return "[" + ", ".join(expr_key(x, depth + 1) for x in e) + "]"
+    if isinstance(e, (str, int, float, bool, type(None))):
+        return repr(e)
+    d = getattr(e, "__dict__", None)
+    if d is None or depth > 8:
+        return type(e).__name__
+    return type(e).__name__ + "(" + ", ".join(f"{k}={expr_key(v, depth + 1)}" for k, v in sorted(d.items()) if k not in ("depth",)) + ")"
+
+
+def _capture_from_real_texts(out):
+    """second source of expressions: everything handed to the matcher while REAL texts are analysed (non-canonical snippets, two
+    corpus files, the C06 probes) - passes that only run when the file's content asks for them, and calls that go to
+    codelimit.common.gsm.matcher directly instead of through scope_utils, are seen here. Recording wrappers delegate to the real functions."""
+    from codelimit.common.gsm import matcher
+    from codelimit.languages import Languages
+    from mc.gen import malformed, wild
+
+    originals = {"find_all": matcher.find_all, "starts_with": matcher.starts_with}
+    seen_now = []
+
+    def rec(kind):
+        real = originals[kind]
+
+        def f(expression, *a, **kw):
+            if not (hasattr(expression, "start") and hasattr(expression, "is_accepting")):
+                seen_now.append(("header" if kind == "find_all" else "follow-up", expression))
+            return real(expression, *a, **kw)
+        return f
+    fakes = {k: rec(k) for k in originals}
+    patched = []
+    for mname, mod in list(sys.modules.items()):
+        if mod is not None and (mname == "codelimit" or mname.startswith("codelimit.")):
+            for attr, val in list(vars(mod).items()):
+                for k, real in originals.items():
+                    if val is real:
+                        patched.append((mod, attr, val))
+                        setattr(mod, attr, fakes[k])
+    try:
+        for name in list(out):
+            if name not in SEVEN:
+                continue
+            texts = [t for _n, t in wild.snippets(name)] + [malformed.corpus_text(name, n) for n in malformed.corpus_files(name)[:2]]
+            known = {expr_key(e) for _r, e in out[name]}
+            for text in texts:
+                del seen_now[:]
+                try:
+                    from mc.gen import oracle
+                    oracle.scan_text(name, text)
+                except Exception:  # noqa - totality is C03's subject; whatever was handed to the matcher before is still recorded
+                    pass
+                for role, e in seen_now:
+                    k = expr_key(e)
+                    if k not in known:
+                        known.add(k)
+                        out[name].append((role, e))
+    finally:
+        for mod, attr, val in patched:
+            setattr(mod, attr, val)
+
+
+_CAPTURE = {}
 
 
 def build_dfa(expr):
